@@ -441,9 +441,9 @@ Section CheckSound.
   Variable voff : N.
   Hypothesis WF : iprog_wfb p voff = true.
   Variable S : list summ.
-  Variable certs : list cert.
-  Hypothesis certs_ok : forall ct, In ct certs -> cert_ok p voff S ct = true.
-  Hypothesis summs_ok : forall sm, In sm S -> exists ct, In ct certs /\ summ_ok p sm ct = true.
+  Variable scs : list cert.          (* the contexts that justify the summaries *)
+  Hypothesis scs_ok : forall ct, In ct scs -> cert_ok p voff S None ct = true.
+  Hypothesis summs_ok : forall sm, In sm S -> exists ct, In ct scs /\ summ_ok p sm ct = true.
 
   Lemma call_wf fn outs g ins : istmt_wfb p voff fn (ICall outs g ins) = true ->
     g < length p /\ length (f_ins (get_fn p g)) = length ins /\ length (f_outs (get_fn p g)) = length outs /\
@@ -486,9 +486,7 @@ Section CheckSound.
     - intros sm I. apply A. right. exact I.
   Qed.
 
-  (* the state at the entry of the callee is inside the precondition of every summary the
-     checker selects, and the state after the call inside the combination of their
-     continuations *)
+  (* the state at the entry of the callee is inside the abstract entry state *)
   Lemma chk_call_entry fn outs g ins e a s0 :
     istmt_wfb p voff fn (ICall outs g ins) = true -> genv e a ->
     bind_ins (f_ins (get_fn p g)) ins a s0 ->
@@ -499,26 +497,39 @@ Section CheckSound.
     apply (callee_entry_sound voff outs ins _ _ Li Lo Bf Bi e a s0 G B).
   Qed.
 
-  Lemma chk_call_sound fn outs g ins e e' a s0 s1 b :
+  (* the state after the call is inside the combination of the continuations of the selected
+     summaries *)
+  Lemma chk_call_sound cov fn outs g ins e e' a s0 s1 b :
     istmt_wfb p voff fn (ICall outs g ins) = true -> genv e a ->
     bind_ins (f_ins (get_fn p g)) ins a s0 ->
     (forall x, In x (f_ins (get_fn p g)) -> s1 x = s0 x) ->
     (forall k, b k = assign_outs a outs (f_outs (get_fn p g)) s1 k) ->
     (forall sm, In sm S -> s_fn sm = g -> genv (s_pre sm) s0 -> genv (s_post sm) s1) ->
-    chk_call p voff S outs g ins e = Some e' -> genv e' b.
+    (exists x, f_exit (get_fn p g) = Some x) ->
+    chk_call p voff S cov outs g ins e = Some e' -> genv e' b.
   Proof.
-    intros W G B Fr Hb IH C. pose proof (chk_call_entry _ _ _ _ _ _ _ W G B) as GE.
+    intros W G B Fr Hb IH [x Hx] C. pose proof (chk_call_entry _ _ _ _ _ _ _ W G B) as GE.
     destruct (call_wf _ _ _ _ W) as (Lg & Li & Lo & NDo & Bi & Bo).
     destruct (fn_wf g Lg) as (NDf & Bf & _).
     unfold chk_call in C. rewrite (genv_not_bot _ _ G) in C.
+    match type of C with (if ?c then _ else _) = _ => destruct c; [|discriminate] end.
+    rewrite Hx in C.
     set (ms := filter (fun sm => Nat.eqb (s_fn sm) g &&
                e_leq (callee_entry voff outs ins (f_ins (get_fn p g)) (f_outs (get_fn p g)) e) (s_pre sm)) S) in *.
     assert (K : forall sm, In sm ms ->
-                genv (cont voff outs ins (f_ins (get_fn p g)) (f_outs (get_fn p g)) e
-                           (e_project (s_post sm) (f_ins (get_fn p g) ++ f_outs (get_fn p g)))) b).
+                genv (if e_is_bot (e_meet (callee_entry voff outs ins (f_ins (get_fn p g)) (f_outs (get_fn p g)) e)
+                                          (e_project (s_post sm) (f_ins (get_fn p g))))
+                      then EBot
+                      else cont voff outs ins (f_ins (get_fn p g)) (f_outs (get_fn p g)) e
+                                (e_project (s_post sm) (f_ins (get_fn p g) ++ f_outs (get_fn p g)))) b).
     { intros sm I. apply filter_In in I. destruct I as [I C2]. apply andb_true_iff in C2.
       destruct C2 as [C2 C3]. apply Nat.eqb_eq in C2.
       assert (G1 : genv (s_post sm) s1) by (apply IH; auto; eapply e_leq_sound; eauto).
+      assert (GM : genv (e_meet (callee_entry voff outs ins (f_ins (get_fn p g)) (f_outs (get_fn p g)) e)
+                                (e_project (s_post sm) (f_ins (get_fn p g)))) s0).
+      { apply e_meet_sound; auto. apply (e_project_sound _ _ s1); auto.
+        intros k0 I0. symmetry. apply Fr. exact I0. }
+      rewrite (genv_not_bot _ _ GM).
       apply (cont_sound voff outs ins _ _ NDf Li Lo NDo Bf Bi Bo e (s_post sm) a s1 b G G1); auto.
       intros f y J. rewrite Fr by (eapply in_combine_l; eauto).
       apply (Forall2_combine _ _ _ _ _ B J). }
@@ -528,53 +539,55 @@ Section CheckSound.
     - intros sm I. apply K. right. exact I.
   Qed.
 
-  Lemma chk_block_app l1 : forall l2 e e'',
-    chk_block p voff S (l1 ++ l2) e = Some e'' ->
-    exists e', chk_block p voff S l1 e = Some e' /\ chk_block p voff S l2 e' = Some e''.
+  Lemma chk_block_app cov l1 : forall l2 e e'',
+    chk_block p voff S cov (l1 ++ l2) e = Some e'' ->
+    exists e', chk_block p voff S cov l1 e = Some e' /\ chk_block p voff S cov l2 e' = Some e''.
   Proof.
     induction l1 as [|st r IH]; simpl; intros l2 e e'' H.
     - exists e. auto.
-    - destruct (chk_stmt p voff S st e) as [e1|]; [|discriminate]. apply IH. exact H.
+    - destruct (chk_stmt p voff S cov st e) as [e1|]; [|discriminate]. apply IH. exact H.
+  Qed.
+
+  (* consequences of cert_ok *)
+  Lemma cert_block cov ct n : cert_ok p voff S cov ct = true -> n < fn_nblocks (get_fn p (ct_fn ct)) ->
+    exists e', chk_block p voff S cov (fn_block (get_fn p (ct_fn ct)) n) (ct_tpre ct n) = Some e' /\
+               e_leq e' (ct_tpost ct n) = true.
+  Proof.
+    intros C L. unfold cert_ok in C.
+    apply andb_true_iff in C. destruct C as [C _]. apply andb_true_iff in C. destruct C as [_ C].
+    rewrite forallb_forall in C. specialize (C n).
+    assert (J : In n (seq 0 (fn_nblocks (get_fn p (ct_fn ct))))) by (apply in_seq; lia).
+    specialize (C J). destruct (chk_block p voff S cov _ _) as [e'|]; [|discriminate]. exists e'. auto.
+  Qed.
+
+  Lemma cert_edge cov ct a b : cert_ok p voff S cov ct = true -> In (a, b) (f_edges (get_fn p (ct_fn ct))) ->
+    e_leq (ct_tpost ct a) (ct_tpre ct b) = true.
+  Proof.
+    intros C J. unfold cert_ok in C.
+    apply andb_true_iff in C. destruct C as [_ C]. rewrite forallb_forall in C. apply (C _ J).
+  Qed.
+
+  Lemma cert_entry cov ct : cert_ok p voff S cov ct = true ->
+    ct_fn ct < length p /\ e_leq (ct_pre ct) (ct_tpre ct 0) = true.
+  Proof.
+    intros C. unfold cert_ok in C.
+    apply andb_true_iff in C. destruct C as [C _]. apply andb_true_iff in C. destruct C as [C _].
+    apply andb_true_iff in C. destruct C as [C1 C2]. apply Nat.ltb_lt in C1. auto.
   Qed.
 
   (* summaries and blocks: induction on executions *)
   Definition P_stmt (st : istmt) (a b : store) : Prop :=
-    forall fn, istmt_wfb p voff fn st = true ->
-    forall e e', genv e a -> chk_stmt p voff S st e = Some e' -> genv e' b.
+    forall cov fn, istmt_wfb p voff fn st = true ->
+    forall e e', genv e a -> chk_stmt p voff S cov st e = Some e' -> genv e' b.
   Definition P_block (bl : iblock) (a b : store) : Prop :=
-    forall fn, (forall st, In st bl -> istmt_wfb p voff fn st = true) ->
-    forall e e', genv e a -> chk_block p voff S bl e = Some e' -> genv e' b.
+    forall cov fn, (forall st, In st bl -> istmt_wfb p voff fn st = true) ->
+    forall e e', genv e a -> chk_block p voff S cov bl e = Some e' -> genv e' b.
   Definition P_from (g n : nat) (a c : store) : Prop :=
     g < length p -> n < fn_nblocks (get_fn p g) ->
-    forall ct, In ct certs -> ct_fn ct = g -> genv (ct_tpre ct n) a ->
+    forall ct, In ct scs -> ct_fn ct = g -> genv (ct_tpre ct n) a ->
     exists x, f_exit (get_fn p g) = Some x /\ genv (ct_tpost ct x) c.
   Definition P_fun (g : nat) (s0 s1 : store) : Prop :=
     g < length p -> forall sm, In sm S -> s_fn sm = g -> genv (s_pre sm) s0 -> genv (s_post sm) s1.
-
-  Lemma cert_block ct n : In ct certs -> n < fn_nblocks (get_fn p (ct_fn ct)) ->
-    exists e', chk_block p voff S (fn_block (get_fn p (ct_fn ct)) n) (ct_tpre ct n) = Some e' /\
-               e_leq e' (ct_tpost ct n) = true.
-  Proof.
-    intros I L. pose proof (certs_ok ct I) as C. unfold cert_ok in C.
-    apply andb_true_iff in C. destruct C as [C _]. apply andb_true_iff in C. destruct C as [_ C].
-    rewrite forallb_forall in C. specialize (C n). 
-    assert (J : In n (seq 0 (fn_nblocks (get_fn p (ct_fn ct))))) by (apply in_seq; lia).
-    specialize (C J). destruct (chk_block p voff S _ _) as [e'|]; [|discriminate]. exists e'. auto.
-  Qed.
-
-  Lemma cert_edge ct a b : In ct certs -> In (a, b) (f_edges (get_fn p (ct_fn ct))) ->
-    e_leq (ct_tpost ct a) (ct_tpre ct b) = true.
-  Proof.
-    intros I J. pose proof (certs_ok ct I) as C. unfold cert_ok in C.
-    apply andb_true_iff in C. destruct C as [_ C]. rewrite forallb_forall in C. apply (C _ J).
-  Qed.
-
-  Lemma cert_entry ct : In ct certs -> ct_fn ct < length p /\ e_leq (ct_pre ct) (ct_tpre ct 0) = true.
-  Proof.
-    intros I. pose proof (certs_ok ct I) as C. unfold cert_ok in C.
-    apply andb_true_iff in C. destruct C as [C _]. apply andb_true_iff in C. destruct C as [C _].
-    apply andb_true_iff in C. destruct C as [C1 C2]. apply Nat.ltb_lt in C1. auto.
-  Qed.
 
   Lemma exec_sound :
     (forall st a b, exec_stmt p st a b -> P_stmt st a b) /\
@@ -584,41 +597,42 @@ Section CheckSound.
   Proof.
     apply exec_mutind.
     - (* base statement *)
-      intros s a b H fn W e e' G C. simpl in C. inversion C; subst e'.
+      intros s a b H cov fn W e e' G C. simpl in C. inversion C; subst e'.
       simpl in W. apply andb_true_iff in W. destruct W as [W _].
       eapply tr_stmt_sound; eauto. apply stmt_wfb_sound. exact W.
     - (* call *)
-      intros outs g ins a s0 s1 b B X IH Hb fn W e e' G C. simpl in C.
+      intros outs g ins a s0 s1 b B X IH Hb cov fn W e e' G C. simpl in C.
       destruct (call_wf _ _ _ _ W) as (Lg & _).
-      refine (chk_call_sound fn outs g ins e e' a s0 s1 b W G B _ Hb _ C).
+      refine (chk_call_sound cov fn outs g ins e e' a s0 s1 b W G B _ Hb _ _ C).
       + intros x I. eapply exec_fun_frame; eauto.
       + intros sm I F Gp. apply (IH Lg sm I F Gp).
-    - intros a fn W e e' G C. simpl in C. inversion C; subst. exact G.
-    - intros s r a m b X IHs Y IHr fn W e e' G C. simpl in C.
-      destruct (chk_stmt p voff S s e) as [e1|] eqn:C1; [|discriminate].
+      + eapply exec_fun_exit; eauto.
+    - intros a cov fn W e e' G C. simpl in C. inversion C; subst. exact G.
+    - intros s r a m b X IHs Y IHr cov fn W e e' G C. simpl in C.
+      destruct (chk_stmt p voff S cov s e) as [e1|] eqn:C1; [|discriminate].
       eapply IHr; eauto.
       + intros st I. apply W. right. exact I.
       + eapply IHs; eauto. apply W. left. reflexivity.
     - (* return at the end of the exit block *)
       intros g n a b E X IH Lg Ln ct I F G. subst g.
-      destruct (cert_block ct n I Ln) as (e' & C & L).
+      destruct (cert_block None ct n (scs_ok ct I) Ln) as (e' & C & L).
       destruct (fn_wf (ct_fn ct) Lg) as (_ & _ & _ & _ & Wb).
       exists n. split; auto. eapply e_leq_sound; [exact L|].
-      eapply (IH (get_fn p (ct_fn ct))); eauto.
+      eapply (IH None (get_fn p (ct_fn ct))); eauto.
     - (* step to a successor block *)
       intros g n m a b c X IH E Y IHf Lg Ln ct I F G. subst g.
-      destruct (cert_block ct n I Ln) as (e' & C & L).
+      destruct (cert_block None ct n (scs_ok ct I) Ln) as (e' & C & L).
       destruct (fn_wf (ct_fn ct) Lg) as (_ & _ & _ & We & Wb).
       apply IHf; auto.
       + apply (We _ _ E).
-      + eapply e_leq_sound; [apply (cert_edge ct n m I E)|].
-        eapply e_leq_sound; [exact L|]. eapply (IH (get_fn p (ct_fn ct))); eauto.
+      + eapply e_leq_sound; [apply (cert_edge None ct n m (scs_ok ct I) E)|].
+        eapply e_leq_sound; [exact L|]. eapply (IH None (get_fn p (ct_fn ct))); eauto.
     - (* function *)
       intros g s0 s1 X IH Lg sm I F G.
       destruct (summs_ok sm I) as (ct & J & OK). unfold summ_ok in OK.
       apply andb_true_iff in OK. destruct OK as [OK O3]. apply andb_true_iff in OK. destruct OK as [O1 O2].
       apply Nat.eqb_eq in O1. rewrite F in O1, O3.
-      destruct (cert_entry ct J) as [_ L0].
+      destruct (cert_entry None ct (scs_ok ct J)) as [_ L0].
       destruct (fn_wf g Lg) as (_ & _ & N0 & _).
       destruct (IH Lg N0 ct J O1) as (x & E & Gx).
       { eapply e_leq_sound; eauto. eapply e_leq_sound; eauto. }
@@ -626,20 +640,22 @@ Section CheckSound.
       apply (e_project_sound _ _ s1); auto.
   Qed.
 
-  (* reachability *)
+  (* reachability: the contexts rcs cover the executions *)
+  Variable rcs : list cert.
+  Hypothesis rcs_ok : forall ct, In ct rcs -> cert_ok p voff S (Some rcs) ct = true.
   Variable entries : list nat.
   Variable Init : store -> Prop.
   Variable init : env.
   Hypothesis init_s : forall s, Init s -> genv init s.
   Hypothesis roots_ok : forall f, In f entries ->
-    exists ct, In ct certs /\ ct_fn ct = f /\ e_leq init (ct_pre ct) = true.
+    exists ct, In ct rcs /\ ct_fn ct = f /\ e_leq init (ct_pre ct) = true.
 
   Definition Q_pre (f n : nat) (s : store) : Prop :=
     f < length p /\ n < fn_nblocks (get_fn p f) /\
-    exists ct, In ct certs /\ ct_fn ct = f /\ genv (ct_tpre ct n) s.
+    exists ct, In ct rcs /\ ct_fn ct = f /\ genv (ct_tpre ct n) s.
   Definition Q_post (f n : nat) (s : store) : Prop :=
     f < length p /\ n < fn_nblocks (get_fn p f) /\
-    exists ct, In ct certs /\ ct_fn ct = f /\ genv (ct_tpost ct n) s.
+    exists ct, In ct rcs /\ ct_fn ct = f /\ genv (ct_tpost ct n) s.
 
   Lemma reach_sound :
     (forall f n s, IRPre p entries Init f n s -> Q_pre f n s) /\
@@ -648,75 +664,70 @@ Section CheckSound.
     destruct exec_sound as (_ & XB & _ & _).
     apply IR_mutind.
     - intros f s I J. destruct (roots_ok f I) as (ct & K & F & L).
-      destruct (cert_entry ct K) as [Lf L0]. rewrite F in Lf.
+      destruct (cert_entry _ ct (rcs_ok ct K)) as [Lf L0]. rewrite F in Lf.
       destruct (fn_wf f Lf) as (_ & _ & N0 & _).
       split; auto. split; auto. exists ct. repeat split; auto.
       eapply e_leq_sound; eauto. eapply e_leq_sound; eauto.
     - intros f q n s E _ (Lf & Lq & ct & K & F & G).
       destruct (fn_wf f Lf) as (_ & _ & _ & We & _). destruct (We _ _ E) as [_ Ln].
       split; auto. split; auto. exists ct. repeat split; auto. subst f.
-      eapply e_leq_sound; [apply (cert_edge ct q n K E)|exact G].
+      eapply e_leq_sound; [apply (cert_edge _ ct q n (rcs_ok ct K) E)|exact G].
     - intros f n s l1 outs g ins l2 m s0 _ (Lf & Ln & ct & K & F & G) EB X B. subst f.
-      destruct (cert_block ct n K Ln) as (e' & C & _). rewrite EB in C.
-      destruct (chk_block_app _ _ _ _ C) as (e1 & C1 & C2).
+      destruct (cert_block _ ct n (rcs_ok ct K) Ln) as (e' & C & _). rewrite EB in C.
+      destruct (chk_block_app _ _ _ _ _ C) as (e1 & C1 & C2).
       destruct (fn_wf (ct_fn ct) Lf) as (_ & _ & _ & _ & Wb).
       assert (W1 : forall st, In st l1 -> istmt_wfb p voff (get_fn p (ct_fn ct)) st = true).
       { intros st I. apply (Wb n). rewrite EB. apply in_or_app. left. exact I. }
       assert (Wc : istmt_wfb p voff (get_fn p (ct_fn ct)) (ICall outs g ins) = true).
       { apply (Wb n). rewrite EB. apply in_or_app. right. left. reflexivity. }
-      pose proof (XB _ _ _ X _ W1 _ _ G C1) as G1.
+      pose proof (XB _ _ _ X _ _ W1 _ _ G C1) as G1.
       pose proof (chk_call_entry _ _ _ _ _ _ _ Wc G1 B) as GE.
       destruct (call_wf _ _ _ _ Wc) as (Lg & _).
-      simpl in C2. destruct (chk_call p voff S outs g ins e1) as [e2|] eqn:CC; [|discriminate].
+      simpl in C2. destruct (chk_call p voff S (Some rcs) outs g ins e1) as [e2|] eqn:CC; [|discriminate].
       unfold chk_call in CC. rewrite (genv_not_bot _ _ G1) in CC.
-      destruct (filter _ S) as [|m0 r] eqn:FS; [discriminate|].
-      assert (I0 : In m0 (filter (fun sm => Nat.eqb (s_fn sm) g &&
-                   e_leq (callee_entry voff outs ins (f_ins (get_fn p g)) (f_outs (get_fn p g)) e1) (s_pre sm)) S)).
-      { rewrite FS. left. reflexivity. }
-      apply filter_In in I0. destruct I0 as [I0 M]. apply andb_true_iff in M. destruct M as [M1 M2].
-      apply Nat.eqb_eq in M1.
-      destruct (summs_ok m0 I0) as (ct0 & J & OK). unfold summ_ok in OK.
-      apply andb_true_iff in OK. destruct OK as [OK _]. apply andb_true_iff in OK. destruct OK as [O1 O2].
-      apply Nat.eqb_eq in O1. rewrite M1 in O1.
-      destruct (cert_entry ct0 J) as [_ L0].
+      match type of CC with (if ?c then _ else _) = _ => destruct c eqn:COV; [|discriminate] end.
+      apply existsb_exists in COV. destruct COV as (ct0 & J & M).
+      apply andb_true_iff in M. destruct M as [M1 M2]. apply Nat.eqb_eq in M1.
+      destruct (cert_entry _ ct0 (rcs_ok ct0 J)) as [_ L0].
       destruct (fn_wf g Lg) as (_ & _ & N0 & _).
       split; auto. split; auto. exists ct0. repeat split; auto.
-      eapply e_leq_sound; eauto. eapply e_leq_sound; eauto. eapply e_leq_sound; eauto.
+      eapply e_leq_sound; eauto. eapply e_leq_sound; eauto.
     - intros f n s s' _ (Lf & Ln & ct & K & F & G) X. subst f.
-      destruct (cert_block ct n K Ln) as (e' & C & L).
+      destruct (cert_block _ ct n (rcs_ok ct K) Ln) as (e' & C & L).
       destruct (fn_wf (ct_fn ct) Lf) as (_ & _ & _ & _ & Wb).
       split; auto. split; auto. exists ct. repeat split; auto.
-      eapply e_leq_sound; eauto. eapply (XB _ _ _ X (get_fn p (ct_fn ct))); eauto.
+      eapply e_leq_sound; [exact L|]. eapply (XB _ _ _ X _ (get_fn p (ct_fn ct))); eauto.
   Qed.
 End CheckSound.
 
-Theorem td_check_sound p voff entries init tpre tpost roots scerts :
-  td_check p voff entries init tpre tpost roots scerts = true ->
+Theorem ig_check_sound p voff entries init tpre tpost rcerts scerts :
+  ig_check p voff entries init tpre tpost rcerts scerts = true ->
   forall Init : store -> Prop, (forall s, Init s -> genv init s) ->
   (forall f n s, IRPre p entries Init f n s -> genv (tpre f n) s) /\
   (forall f n s, IRPost p entries Init f n s -> genv (tpost f n) s) /\
   (forall sm, In sm (map fst scerts) ->
      forall s0 s1, genv (s_pre sm) s0 -> exec_fun p (s_fn sm) s0 s1 -> genv (s_post sm) s1).
 Proof.
-  unfold td_check. intros H Init HI.
+  unfold ig_check. intros H Init HI.
   apply andb_true_iff in H. destruct H as [H HT].
   apply andb_true_iff in H. destruct H as [H HR].
   apply andb_true_iff in H. destruct H as [H HS].
+  apply andb_true_iff in H. destruct H as [H HC2].
   apply andb_true_iff in H. destruct H as [WF HC].
-  set (S := map fst scerts) in *. set (certs := roots ++ map snd scerts) in *.
-  rewrite forallb_forall in HC, HS, HR, HT.
-  assert (summs : forall sm, In sm S -> exists ct, In ct certs /\ summ_ok p sm ct = true).
+  set (S := map fst scerts) in *. set (scs := map snd scerts) in *.
+  rewrite forallb_forall in HC, HC2, HS, HR, HT.
+  assert (summs : forall sm, In sm S -> exists ct, In ct scs /\ summ_ok p sm ct = true).
   { intros sm I. unfold S in I. apply in_map_iff in I. destruct I as ([sm' ct] & E & I). simpl in E. subst sm'.
     exists ct. split.
-    - unfold certs. apply in_or_app. right. apply in_map_iff. exists (sm, ct). auto.
+    - unfold scs. apply in_map_iff. exists (sm, ct). auto.
     - apply (HS _ I). }
-  assert (rootsok : forall f, In f entries -> exists ct, In ct certs /\ ct_fn ct = f /\ e_leq init (ct_pre ct) = true).
+  assert (rootsok : forall f, In f entries -> exists ct, In ct rcerts /\ ct_fn ct = f /\ e_leq init (ct_pre ct) = true).
   { intros f I. specialize (HR _ I). apply existsb_exists in HR. destruct HR as (ct & J & K).
     apply andb_true_iff in K. destruct K as [K1 K2]. apply Nat.eqb_eq in K1.
-    exists ct. repeat split; auto. unfold certs. apply in_or_app. left. exact J. }
-  destruct (reach_sound p voff WF S certs HC summs entries Init init HI rootsok) as [R1 R2].
-  destruct (exec_sound p voff WF S certs HC summs) as (_ & _ & _ & XF).
-  assert (TB : forall ct n, In ct certs -> n < fn_nblocks (get_fn p (ct_fn ct)) ->
+    exists ct. repeat split; auto. }
+  destruct (reach_sound p voff WF S scs HC summs rcerts HC2 entries Init init HI rootsok) as [R1 R2].
+  destruct (exec_sound p voff WF S scs HC summs) as (_ & _ & _ & XF).
+  assert (TB : forall ct n, In ct rcerts -> n < fn_nblocks (get_fn p (ct_fn ct)) ->
                e_leq (ct_tpre ct n) (tpre (ct_fn ct) n) = true /\ e_leq (ct_tpost ct n) (tpost (ct_fn ct) n) = true).
   { intros ct n I L. specialize (HT _ I). rewrite forallb_forall in HT.
     assert (J : In n (seq 0 (fn_nblocks (get_fn p (ct_fn ct))))) by (apply in_seq; lia).
@@ -730,6 +741,95 @@ Proof.
     assert (L : s_fn sm < length p).
     { unfold summ_ok in OK. apply andb_true_iff in OK. destruct OK as [OK _].
       apply andb_true_iff in OK. destruct OK as [O1 _]. apply Nat.eqb_eq in O1. rewrite <- O1.
-      apply (cert_entry p voff S certs HC ct J). }
+      apply (cert_entry p voff S None ct (HC ct J)). }
     apply (XF _ _ _ X L sm I eq_refl G).
+Qed.
+
+Theorem td_check_sound p voff entries init tpre tpost roots scerts :
+  td_check p voff entries init tpre tpost roots scerts = true ->
+  forall Init : store -> Prop, (forall s, Init s -> genv init s) ->
+  (forall f n s, IRPre p entries Init f n s -> genv (tpre f n) s) /\
+  (forall f n s, IRPost p entries Init f n s -> genv (tpost f n) s) /\
+  (forall sm, In sm (map fst scerts) ->
+     forall s0 s1, genv (s_pre sm) s0 -> exec_fun p (s_fn sm) s0 s1 -> genv (s_post sm) s1).
+Proof. unfold td_check. apply ig_check_sound. Qed.
+
+Theorem td_validate_sound p voff entries init tpre tpost S delay desc efuel wtos :
+  td_validate p voff entries init tpre tpost S delay desc efuel wtos = true ->
+  forall Init : store -> Prop, (forall s, Init s -> genv init s) ->
+  (forall f n s, IRPre p entries Init f n s -> genv (tpre f n) s) /\
+  (forall f n s, IRPost p entries Init f n s -> genv (tpost f n) s) /\
+  (forall sm, In sm S ->
+     forall s0 s1, genv (s_pre sm) s0 -> exec_fun p (s_fn sm) s0 s1 -> genv (s_post sm) s1).
+Proof.
+  unfold td_validate. intros H Init HI.
+  destruct (td_check_sound _ _ _ _ _ _ _ _ H Init HI) as (A & B & C).
+  split; auto. split; auto. intros sm I. apply C.
+  rewrite map_map. cbn [fst]. rewrite map_id. exact I.
+Qed.
+
+Theorem td_bottom_never_entered p voff entries init tpre tpost S delay desc efuel wtos :
+  td_validate p voff entries init tpre tpost S delay desc efuel wtos = true ->
+  forall Init : store -> Prop, (forall s, Init s -> genv init s) ->
+  forall f n, e_is_bot (tpre f n) = true -> forall s, ~ IRPre p entries Init f n s.
+Proof.
+  intros H Init HI f n B s R. destruct (td_validate_sound _ _ _ _ _ _ _ _ _ _ _ H Init HI) as (A & _).
+  eapply e_is_bot_sound; eauto.
+Qed.
+
+(* ------------------------------------------------------------------ joined calling contexts (known finding)
+   default_context_sensitivity_policy::add joins the two oldest calling contexts when there are
+   more than max_call_contexts: (pre1 | pre2, post1 | post2) is stored and reused as a summary,
+   but it is not one.  The model mirrors the code as it is; here is an input on which the
+   stored summary is wrong (replayed on the implementation by the check). *)
+Definition gammab (i : itv) (x : Z) : bool := ble (lb i) (Fin x) && ble (Fin x) (ub i).
+Definition menv (e : env) (s : store) : bool :=
+  match e with EBot => false | EMap m => forallb (fun k => gammab (get m k) (s k)) (keys m) end.
+
+Lemma menv_true e s : menv e s = true -> genv e s.
+Proof.
+  destruct e as [|m]; simpl; [discriminate|]. intros H k. rewrite forallb_forall in H.
+  destruct (in_dec N.eq_dec k (keys m)) as [I|NI].
+  - specialize (H _ I). unfold gammab in H. apply andb_true_iff in H. exact H.
+  - rewrite get_not_key by exact NI. apply Scalar.ItvSound.gamma_top.
+Qed.
+
+Lemma menv_false e s : menv e s = false -> ~ genv e s.
+Proof.
+  destruct e as [|m]; simpl; auto. intros H G.
+  assert (X : forallb (fun k => gammab (get m k) (s k)) (keys m) = true).
+  { apply forallb_forall. intros k _. unfold gammab. apply andb_true_iff. apply G. }
+  congruence.
+Qed.
+
+Definition jc_prog : iprog :=
+  [mkFunc [] [] [[IBase (SAssign 2%N (mkLE [] 0%Z)); ICall [3%N] 1 [2%N];
+                  IBase (SAssign 2%N (mkLE [] 2%Z)); ICall [3%N] 1 [2%N];
+                  IBase (SAssign 2%N (mkLE [] 7%Z)); ICall [3%N] 1 [2%N];
+                  IBase (SAssign 2%N (mkLE [] 1%Z)); ICall [3%N] 1 [2%N]]] [] (Some 0);
+   mkFunc [0%N] [1%N]
+          [[IBase (SSelect 1%N (mkLC EQ (mkLE [(1%Z, 0%N)] (-1)%Z)) (mkLE [] 100%Z) (mkLE [(1%Z, 0%N)] 0%Z))]]
+          [] (Some 0)].
+
+Theorem joined_contexts_refuted :
+  exists w0 w1 rs sm s0 s1,
+    Fix.Wto.build (fn_graph (get_fn jc_prog 0)) 0 = Some w0 /\
+    Fix.Wto.build (fn_graph (get_fn jc_prog 1)) 0 = Some w1 /\
+    cg_recset jc_prog = Some rs /\
+    let wtos := fun f => if Nat.eqb f 0 then w0 else w1 in
+    (* max_call_contexts = 1 *)
+    let g := td_run jc_prog (prog_voff jc_prog) (Some 1) true 2 2 100 wtos rs 5 (cg_entries jc_prog) e_top in
+    g_err g = false /\ In sm (g_summaries jc_prog g) /\
+    genv (s_pre sm) s0 /\ exec_fun jc_prog (s_fn sm) s0 s1 /\ ~ genv (s_post sm) s1.
+Proof.
+  set (s0 := fun k : var => if N.eqb k 0 then 1%Z else 0%Z).
+  eexists. eexists. eexists. eexists. exists s0. exists (upd s0 1%N 100%Z).
+  split; [vm_compute; reflexivity|]. split; [vm_compute; reflexivity|]. split; [vm_compute; reflexivity|].
+  cbv zeta. split; [vm_compute; reflexivity|].
+  split; [vm_compute; left; reflexivity|].
+  split; [apply menv_true; vm_compute; reflexivity|].
+  split.
+  - constructor. apply XF_exit; [reflexivity|].
+    eapply XB_cons; [|apply XB_nil]. apply XS_base. reflexivity.
+  - apply menv_false. vm_compute. reflexivity.
 Qed.
